@@ -147,8 +147,14 @@ const (
 	// C17 only (never drawn by the generator: weight -1)
 	LMig
 	WMig
+	// a leaf standing for an error value handed to the builder (GivenErr)
+	LGiven
 	NumKinds
 )
+
+// GivenErr is the value LGiven nodes stand for (set by a scenario right
+// before it builds a spec containing such a node).
+var GivenErr error
 
 // Sentinels is the pool of well-known sentinel errors.
 var Sentinels = []error{
@@ -530,6 +536,8 @@ func init() {
 		}})
 	def(MUMulti, KindInfo{Slots: "U", Name: "uMulti", Arity: Multi, Groups: GUser | GMulti, Weight: 2,
 		build: func(n *Node, k, _ []error) error { return &UMulti{Msg: n.S[0].V, Errs: k} }})
+	def(LGiven, KindInfo{Name: "received", Groups: GStd, Weight: -1,
+		build: func(n *Node, _, _ []error) error { return GivenErr }})
 	def(LMig, KindInfo{Slots: "U", Name: "migLeaf", Groups: GUser, NInts: []int{2}, Weight: -1,
 		build: func(n *Node, _, _ []error) error { return MigNew(MigBuildName, n.N[0], n.S[0].V, nil) }})
 	def(WMig, KindInfo{Slots: "U", Name: "migWrap", Arity: Wrap, Groups: GUser, Weight: -1,
